@@ -255,7 +255,11 @@ func (g *Globals) structSort(t types.Type, st *types.Struct) string {
 	for i := 0; i < st.NumFields(); i++ {
 		f := st.Field(i)
 		fsort := g.sortOf(f.Type())
-		sel := fmt.Sprintf("%s_f_%s", name, sanitize(f.Name()))
+		fname := f.Name()
+		if fname == "_" {
+			fname = fmt.Sprintf("blank%d", i)
+		}
+		sel := fmt.Sprintf("%s_f_%s", name, sanitize(fname))
 		si.Fields = append(si.Fields, fieldInfo{Name: f.Name(), T: f.Type(), Sort: fsort, Sel: sel})
 		fs = append(fs, fmt.Sprintf("(%s %s)", sel, fsort))
 	}
